@@ -629,8 +629,10 @@ def run_volmatrix(case):
     if case["oracle"] and not tr:
         fr = case["frames"][k]
         Aref = NB.ref_volume_matrix(np.array(fr["pos"]), fr["L"], d, case["deltar"])
-        if np.abs(M - Aref).max() > TOL_A:
-            ij = np.unravel_index(int(np.argmax(np.abs(M - Aref))), M.shape)
+        # tolerance relative for entries > 1 (a neighbour very close across a face makes entries of several units; the central difference of
+        # freud's single-precision volumes carries ~1e-6 / (2 deltar) of noise per unit of volume change)
+        if (np.abs(M - Aref) / np.maximum(1.0, np.abs(Aref))).max() > TOL_A:
+            ij = np.unravel_index(int(np.argmax(np.abs(M - Aref) / np.maximum(1.0, np.abs(Aref)))), M.shape)
             R.fail(f"entry {list(map(int, ij))}: {M[ij]!r}, finite-difference reference on frame {k}: {Aref[ij]!r}", sig=dict(sig, clause="oracle"),
                    sub="C20.volmatrix.oracle", exp=Aref, obs=M)
     if case.get("oracle_cols") and not tr:
